@@ -157,6 +157,26 @@ Theorem reciprocal_B (Z0 : K) (m : mat K) : reciprocal (rel_B Z0 m) <-> det m = 
 Proof. destruct m as [a b c d]. unfold reciprocal. split.
   - intros H. rec_fwd H (Port 1 0 a (- c)) (Port 0 1 b (- d)).
   - tp_unfold. rec_bwd. Qed.
+
+(* ---- "the same value whichever representation it is computed from", made
+   explicit: two representations with the same port relation (conv_sound_X_Y)
+   whose formulas both meet the port-level definition of a derived quantity
+   (derived_X_q, derived_Y_q) return the same value, provided one admissible
+   terminated state has a non-zero denominator (otherwise the quantity is
+   undefined and nothing is claimed) *)
+Theorem derived_agree (R R' : port K -> Prop) (term num den : port K -> K) (q q' : K) :
+  (forall v, R v <-> R' v) ->
+  is_ratio R term num den q -> is_ratio R' term num den q' ->
+  (exists v, R v /\ term v = 0 /\ den v <> 0) -> q = q'.
+Proof. intros Hiff Hq Hq' [v [Rv [Tv Dv]]].
+  apply (is_ratio_unique K R term num den q q' v); try assumption.
+  intros w Rw Tw. apply Hq'; [apply Hiff; exact Rw | exact Tw]. Qed.
+(* non-vacuity: for a Z matrix the state (I1, I2) = (1, 0) is admissible,
+   open-circuited at port 2 and has I1 <> 0 in any field (1 <> 0) *)
+Example derived_agree_premise_Z (Z0 : K) (m : mat K) :
+  exists v, rel_Z Z0 m v /\ I2 v = 0 /\ I1 v <> 0.
+Proof. destruct m as [a b c d]. exists (Port a 1 c 0). tp_unfold.
+  repeat split; try ring. exact (F_1_neq_0 (fth K)). Qed.
 End C08.
 Print Assumptions chain3_assoc.
 Print Assumptions cascade_A_spec.
@@ -173,3 +193,4 @@ Print Assumptions reciprocal_H.
 Print Assumptions reciprocal_G.
 Print Assumptions reciprocal_A.
 Print Assumptions reciprocal_B.
+Print Assumptions derived_agree.
